@@ -141,7 +141,7 @@ func (e *XElem) walk(f func(*XElem)) {
 // ---- generators ----
 
 var xmlNames = []string{"a", "b", "c", "d", "A", "B", "item", "Item", "x-y", "x_y", "X-Y", "n1", "long-name-here"}
-var nsPrefixes = []string{"", "", "", "ns", "p"}
+var nsPrefixes = []string{"", "", "", "ns", "p", "n-s"}
 
 // hostile value alphabet (section 3.1 of DESIGN.md); no carriage return
 var textAlphabet = []string{"a", "b", "Z", "1", "0", ".", "-", "+", "e", " ", " ", "\t", "\n", "&", "<", ">", "\"", "'", "é", "世",
@@ -204,9 +204,9 @@ func (g XGen) genAttrs(t *rapid.T, e *XElem) {
 		if g.Namespaces {
 			switch rapid.IntRange(0, 9).Draw(t, "akind") {
 			case 0:
-				a.Prefix = rapid.SampledFrom([]string{"ns", "p"}).Draw(t, "apfx")
+				a.Prefix = rapid.SampledFrom([]string{"ns", "p", "n-s"}).Draw(t, "apfx")
 			case 1:
-				a = XAttr{Prefix: "xmlns", Local: rapid.SampledFrom([]string{"ns", "p"}).Draw(t, "nsdecl"), Value: "urn:" + rapid.SampledFrom([]string{"x", "y"}).Draw(t, "uri")}
+				a = XAttr{Prefix: "xmlns", Local: rapid.SampledFrom([]string{"ns", "p", "n-s"}).Draw(t, "nsdecl"), Value: "urn:" + rapid.SampledFrom([]string{"x", "y"}).Draw(t, "uri")}
 			case 2:
 				a = XAttr{Local: "xmlns", Value: "urn:default"}
 			}
